@@ -141,3 +141,98 @@ func helperResult(outer scope, v ssa.Value) (ssa.Value, scope, bool) {
 	}
 	return ret, scope{fn: callee, bind: bind, call: call}, true
 }
+
+// dataParams: the parameters of the enclosing function whose VALUE (not merely a branch decision) reaches v: through
+// arithmetic, conversions, phis, loads of locals, and loads of elements of parameters or of slices built in the function
+// (every element store into such a slice counts). Control dependence is deliberately ignored.
+func dataParams(v ssa.Value) map[*ssa.Parameter]bool {
+	out := map[*ssa.Parameter]bool{}
+	seen := map[ssa.Value]bool{}
+	var walk func(v ssa.Value, d int)
+	elemStores := func(base ssa.Value, d int) {
+		refs := base.Referrers()
+		if refs == nil {
+			return
+		}
+		for _, ref := range *refs {
+			switch x := ref.(type) {
+			case *ssa.IndexAddr:
+				if x.X != base {
+					continue
+				}
+				for _, r2 := range *x.Referrers() {
+					if st, ok := r2.(*ssa.Store); ok && st.Addr == ssa.Value(x) {
+						walk(st.Val, d+1)
+					}
+				}
+			case *ssa.Store:
+				if x.Addr == base {
+					walk(x.Val, d+1)
+				}
+			case *ssa.Slice:
+				if x.X == base {
+					// writes through a sub-slice
+					for _, r2 := range *x.Referrers() {
+						if ia, ok := r2.(*ssa.IndexAddr); ok {
+							for _, r3 := range *ia.Referrers() {
+								if st, ok := r3.(*ssa.Store); ok && st.Addr == ssa.Value(ia) {
+									walk(st.Val, d+1)
+								}
+							}
+						}
+					}
+				}
+			}
+		}
+	}
+	walk = func(v ssa.Value, d int) {
+		if v == nil || seen[v] || d > 40 {
+			return
+		}
+		seen[v] = true
+		switch x := v.(type) {
+		case *ssa.Parameter:
+			out[x] = true
+		case *ssa.Convert:
+			walk(x.X, d+1)
+		case *ssa.ChangeType:
+			walk(x.X, d+1)
+		case *ssa.BinOp:
+			walk(x.X, d+1)
+			walk(x.Y, d+1)
+		case *ssa.UnOp:
+			walk(x.X, d+1)
+		case *ssa.Phi:
+			for _, e := range x.Edges {
+				walk(e, d+1)
+			}
+		case *ssa.Extract:
+			walk(x.Tuple, d+1)
+		case *ssa.Slice:
+			walk(x.X, d+1)
+		case *ssa.IndexAddr:
+			walk(x.X, d+1)
+			walk(x.Index, d+1)
+		case *ssa.Index:
+			walk(x.X, d+1)
+			walk(x.Index, d+1)
+		case *ssa.FieldAddr:
+			walk(x.X, d+1)
+		case *ssa.Field:
+			walk(x.X, d+1)
+		case *ssa.MakeSlice:
+			elemStores(x, d)
+		case *ssa.Alloc:
+			elemStores(x, d)
+		case *ssa.Call:
+			if b, ok := x.Call.Value.(*ssa.Builtin); ok && (b.Name() == "len" || b.Name() == "cap") {
+				return // the length of a slice is not one of its element values
+			}
+			for _, a := range x.Call.Args {
+				walk(a, d+1)
+			}
+		}
+	}
+	walk(v, 0)
+	return out
+}
